@@ -423,7 +423,7 @@ pub fn damage_text(src: &mut Src, c: &TextCase) -> (String, &'static str) {
     let is_txt = c.rec.rtype == T_TXT;
     let is_soa = c.rec.rtype == T_SOA;
     for _ in 0..8 {
-        match src.below(22) {
+        match src.below(24) {
             0 => {
                 // a field removed (not for TXT/SOA whose rdata may contain blanks)
                 if !is_txt && !is_soa && fs.len() >= 5 {
@@ -649,6 +649,27 @@ pub fn damage_text(src: &mut Src, c: &TextCase) -> (String, &'static str) {
                     let mut s = t.clone();
                     s.push_str("\n");
                     return (s, "trailing-newline");
+                }
+            }
+            22 => {
+                // the separator between owner and TTL is missing and the owner's last label is as long as a
+                // label may be: the digits of the TTL make it too long (a parser that merely stops reading
+                // the label there would see a well-formed record)
+                if !is_txt && fs.len() >= 5 && fs[1].chars().all(|ch| ch.is_ascii_digit()) {
+                    let l = *src.pick(&[62usize, 61, 63]);
+                    let prefix = if src.chance(128) { "p." } else { "" };
+                    let mut v: Vec<String> = vec![format!("{}{}{}", prefix, "a".repeat(l), fs[1])];
+                    v.extend(fs[2..].iter().cloned());
+                    if l + fs[1].len() > 63 {
+                        return (join(&v), "owner-glued-to-ttl-label-too-long");
+                    }
+                }
+            }
+            23 => {
+                if fs.len() >= 5 {
+                    let mut v = fs.clone();
+                    v[0] = format!("{}.example.", "c".repeat(*src.pick(&[63usize, 64, 70, 255])));
+                    return (join(&v), "owner-label-too-long");
                 }
             }
             _ => {
